@@ -358,6 +358,46 @@ Proof.
         (split; [reflexivity|]); rewrite Hp, !rres_at_nth, Hj; cbn; auto.
 Qed.
 
+(* ================= checkRevocationResults ================= *)
+
+Definition not_nil (r : rres) : bool := negb (is_nil r).
+
+Lemma first_nil_spec : forall rs k,
+  match first_nil k rs with
+  | None => forallb (fun r => negb (is_nil r)) rs = true
+  | Some p => forallb (fun r => negb (is_nil r)) rs = false /\
+              exists j, p = (k + N.of_nat j)%N /\ nth_error rs j = Some RNil /\
+                        forallb (fun r => negb (is_nil r)) (firstn j rs) = true
+  end.
+Proof.
+  induction rs as [|r rs IH]; intros k; [reflexivity|].
+  cbn [first_nil forallb]. destruct (is_nil r) eqn:E; cbn [negb andb].
+  - split; [reflexivity|]. exists O. rewrite N.add_0_r. split; [reflexivity|].
+    split; [|reflexivity]. destruct r; try discriminate. reflexivity.
+  - specialize (IH (N.succ k)). destruct (first_nil (N.succ k) rs) as [p|]; [|exact IH].
+    destruct IH as [F (j & -> & Hj & Hf)]. split; [exact F|].
+    exists (S j). split; [lia|]. split; [exact Hj|]. cbn [firstn forallb]. now rewrite E.
+Qed.
+
+Lemma shape_check_spec n v :
+  match shape_check n v with
+  | None => shape_ok n v = true
+  | Some w => shape_ok n v = false /\
+      match w with
+      | WRevCount => exists rs, v = VRes rs /\ (N.of_nat (List.length rs) =? n)%N = false
+      | WRevNil p => rres_at p v is_nil = true
+      | _ => False
+      end
+  end.
+Proof.
+  destruct v as [|rs]; [reflexivity|]. unfold shape_check, shape_ok.
+  destruct (N.of_nat (List.length rs) =? n)%N eqn:L; cbn [negb andb].
+  - pose proof (first_nil_spec rs 0%N) as FN. destruct (first_nil 0%N rs) as [p|]; [|exact FN].
+    destruct FN as [F (j & -> & Hj & _)]. split; [exact F|].
+    rewrite rres_at_nth, Hj. reflexivity.
+  - split; [reflexivity|]. now exists rs.
+Qed.
+
 (* ================= verifyTimestamp / verifyAuthenticTimestamp ================= *)
 
 Lemma nth_c_cert_at cs j p : nth_c cs j p = cert_at (0 + N.of_nat j) cs p.
@@ -402,6 +442,14 @@ Proof.
       (split; [reflexivity|]); unfold why_ok; rewrite S, A; cbn [andb];
       rewrite <- nth_c_cert_at; exact Hj.
   - rewrite TS. cbn [andb].
+    pose proof (shape_check_spec (k_tsalen (i_tok i)) (k_rev (i_tok i))) as SH.
+    destruct (shape_check (k_tsalen (i_tok i)) (k_rev (i_tok i))) as [w|].
+    { destruct SH as [F Hw]. rewrite F. cbn [andb]. split; [reflexivity|].
+      unfold why_ok. rewrite S, A. cbn [andb].
+      destruct w; try contradiction.
+      - destruct Hw as (rs & -> & E). now rewrite E.
+      - exact Hw. }
+    rewrite SH. cbn [andb].
     pose proof (rev_check_spec (k_rev (i_tok i))) as RV.
     destruct (rev_check (k_rev (i_tok i))) as [w|]; [|exact RV].
     destruct RV as [F Hw]. split; [exact F|].
@@ -541,9 +589,24 @@ Proof.
     + intros (rs' & E & H). inversion E; subst. exact H.
 Qed.
 
+Lemma shape_rev_iff n v : (shape_ok n v = true /\ rev_ok v = true) <->
+  exists rs, v = VRes rs /\ N.of_nat (List.length rs) = n /\
+             Forall (fun r => r = ROK \/ r = RNonRevokable) rs.
+Proof.
+  rewrite rev_ok_iff. split.
+  - intros [SH (rs & -> & F)]. exists rs. split; [reflexivity|]. split; [|exact F].
+    cbn [shape_ok] in SH. apply andb_true_iff in SH. destruct SH as [L _]. now apply N.eqb_eq.
+  - intros (rs & -> & L & F). split; [|now exists rs].
+    cbn [shape_ok]. apply andb_true_iff. split; [now apply N.eqb_eq|].
+    apply forallb_forall. intros r Hin. rewrite Forall_forall in F.
+    destruct (F r Hin) as [-> | ->]; reflexivity.
+Qed.
+
 Lemma token_ok_iff i : token_ok i = true <-> Token_ok i.
 Proof.
-  unfold token_ok, Token_ok. rewrite !andb_true_iff, all_load_iff, some_root_iff, rev_ok_iff.
+  unfold token_ok, Token_ok. cbv zeta.
+  rewrite <- (shape_rev_iff (k_tsalen (i_tok i)) (k_rev (i_tok i))).
+  rewrite !andb_true_iff, all_load_iff, some_root_iff.
   rewrite (forallb_Forall _ _ (i_chain i) (window_ok_iff _ _)). tauto.
 Qed.
 
@@ -765,26 +828,78 @@ Section Steps.
       rewrite forallb_forall in TS. now apply TS.
   Qed.
 
+  (* checkRevocationResults: the answer does not hold one non-nil result per TSA certificate *)
+  Lemma step_shape :
+    Forall (Inside (k_gen (i_tok i) - k_acc (i_tok i)) (k_gen (i_tok i) + k_acc (i_tok i))) (i_chain i) ->
+    forall rs, k_rev (i_tok i) = VRes rs ->
+    (N.of_nat (List.length rs) <> k_tsalen (i_tok i) -> verify_authentic_timestamp i = Failed WRevCount) /\
+    (N.of_nat (List.length rs) = k_tsalen (i_tok i) -> In RNil rs ->
+       exists k, nth_error rs k = Some RNil /\ ~ In RNil (firstn k rs) /\
+                 verify_authentic_timestamp i = Failed (WRevNil (N.of_nat k))).
+  Proof.
+    intros FI rs R. rewrite unfold_vt. unfold countersig.
+    rewrite P1, P2, P3, P4, (load_tsa_top _ W), P5, P6, P7, P8. cbn [negb].
+    pose proof (ts_loop_spec (k_gen (i_tok i) - k_acc (i_tok i)) (k_gen (i_tok i) + k_acc (i_tok i))
+                  (i_chain i) 0%N) as TS.
+    destruct (ts_loop _ _ (i_chain i) 0%N) as [w|].
+    { exfalso. destruct TS as [F _].
+      apply (forallb_Forall _ _ _ (window_ok_iff _ _)) in FI. congruence. }
+    rewrite R. unfold shape_check. split.
+    - intros NE. apply N.eqb_neq in NE. now rewrite NE.
+    - intros EQ Hin. apply N.eqb_eq in EQ. rewrite EQ. cbn [negb].
+      pose proof (first_nil_spec rs 0%N) as FN. destruct (first_nil 0%N rs) as [p|].
+      + destruct FN as [_ (j & -> & Hj & Hf)]. exists j. split; [exact Hj|]. split.
+        * intros Hin'. rewrite forallb_forall in Hf. specialize (Hf _ Hin'). discriminate.
+        * now rewrite N.add_0_l.
+      + exfalso. rewrite forallb_forall in FN. specialize (FN _ Hin). discriminate.
+  Qed.
+
   Lemma step_revocation :
     Forall (Inside (k_gen (i_tok i) - k_acc (i_tok i)) (k_gen (i_tok i) + k_acc (i_tok i))) (i_chain i) ->
+    shape_ok (k_tsalen (i_tok i)) (k_rev (i_tok i)) = true ->
     rev_ok (k_rev (i_tok i)) = false ->
     verify_authentic_timestamp i = Failed WRevErr \/
     exists k, verify_authentic_timestamp i = Failed (WRevoked k) \/
               verify_authentic_timestamp i = Failed (WRevUnknown k).
   Proof.
-    intros FI NR. rewrite unfold_vt. unfold countersig.
+    intros FI SHO NR. rewrite unfold_vt. unfold countersig.
     rewrite P1, P2, P3, P4, (load_tsa_top _ W), P5, P6, P7, P8. cbn [negb].
     pose proof (ts_loop_spec (k_gen (i_tok i) - k_acc (i_tok i)) (k_gen (i_tok i) + k_acc (i_tok i))
                   (i_chain i) 0%N) as TS.
     destruct (ts_loop _ _ (i_chain i) 0%N) as [w|].
     - exfalso. destruct TS as [F _].
       apply (forallb_Forall _ _ _ (window_ok_iff _ _)) in FI. congruence.
-    - pose proof (rev_check_spec (k_rev (i_tok i))) as RV.
+    - pose proof (shape_check_spec (k_tsalen (i_tok i)) (k_rev (i_tok i))) as SH.
+      destruct (shape_check (k_tsalen (i_tok i)) (k_rev (i_tok i))) as [w|];
+        [destruct SH as [F _]; congruence|].
+      pose proof (rev_check_spec (k_rev (i_tok i))) as RV.
       destruct (rev_check (k_rev (i_tok i))) as [w|]; [|congruence].
       destruct RV as [_ Hw]. destruct w; try contradiction;
         [left; reflexivity | right; eexists; left; reflexivity | right; eexists; right; reflexivity].
   Qed.
 End Steps.
+
+(* where an "unknown" verdict can come from *)
+Lemma countersig_unknown_origin i k : countersig i = Failed (WRevUnknown k) ->
+  rev_check (k_rev (i_tok i)) = Some (WRevUnknown k).
+Proof.
+  intros E. unfold countersig in E.
+  destruct (negb (k_present (i_tok i))); [discriminate|].
+  destruct (negb (k_parses (i_tok i))); [discriminate|].
+  destruct (negb (k_info (i_tok i))); [discriminate|].
+  destruct (negb (k_imprint (i_tok i))); [discriminate|].
+  destruct (load_tsa (i_stores i) [] (i_tsadb i) false) as [[|]|]; try discriminate.
+  destruct (negb (k_verify (i_tok i))); [discriminate|].
+  destruct (negb (k_rules (i_tok i))); [discriminate|].
+  pose proof (ts_loop_spec (k_gen (i_tok i) - k_acc (i_tok i)) (k_gen (i_tok i) + k_acc (i_tok i))
+                (i_chain i) 0%N) as TS.
+  destruct (ts_loop _ _ (i_chain i) 0%N) as [w|].
+  { inversion E; subst w. destruct TS as [_ (j & _ & [[? _]|[? _]])]; discriminate. }
+  pose proof (shape_check_spec (k_tsalen (i_tok i)) (k_rev (i_tok i))) as SH.
+  destruct (shape_check (k_tsalen (i_tok i)) (k_rev (i_tok i))) as [w|].
+  { inversion E; subst w. destruct SH as [_ []]. }
+  destruct (rev_check (k_rev (i_tok i))) as [w|]; [|discriminate]. now inversion E.
+Qed.
 
 (* a revoked TSA certificate is reported as revoked *)
 Theorem revoked_reported : forall i rs, wf i = true -> i_scheme i = X509 ->
@@ -794,27 +909,13 @@ Theorem revoked_reported : forall i rs, wf i = true -> i_scheme i = X509 ->
 Proof.
   intros i rs W S R Hin w E. pose proof (vat_spec i W) as V. rewrite E in V. destruct V as [_ V].
   split.
-  - intros k ->. unfold why_ok in V. rewrite S in V. rewrite !andb_true_iff in V.
-    destruct V as [[_ V1] V2]. rewrite R in V1, V2. unfold rres_at in V1, V2.
-    destruct (nth_error rs (N.to_nat k)) as [r|] eqn:N; [|discriminate].
-    (* the loop remembers a revoked certificate whenever there is one *)
-    exfalso. clear V1 V2 N r.
-    unfold verify_authentic_timestamp, verify_timestamp in E. rewrite S in E.
-    destruct (tsa_in_policy (i_stores i)) as [en|]; [|discriminate].
-    destruct (perform_ts _ _ _ en).
-    + unfold countersig in E.
-      repeat match type of E with
-             | (if ?b then _ else _) = _ => destruct b; try discriminate
-             | match ?x with _ => _ end = _ => destruct x eqn:?; try discriminate
-             end.
-      * inversion E; subst. match goal with H : ts_loop _ _ _ _ = Some _ |- _ =>
-          pose proof (ts_loop_spec (k_gen (i_tok i) - k_acc (i_tok i)) (k_gen (i_tok i) + k_acc (i_tok i)) (i_chain i) 0%N) as TS;
-          rewrite H in TS; destruct TS as [_ (j & _ & [[? _]|[? _]])]; discriminate end.
-      * inversion E; subst. rewrite R in *. unfold rev_check, final_result in *.
-        rewrite loop_is_fr, fr_revFound, index_from_revp in *.
-        assert (X : existsb is_revoked rs = true) by (apply existsb_exists; exists RRevoked; auto).
-        rewrite X in *.
-        match goal with H : match (if ?c then _ else _) with _ => _ end = _ |- _ => destruct c; discriminate end.
+  - intros k ->. rewrite (vt_unfold i W S) in E. destruct (applies i).
+    + apply countersig_unknown_origin in E. rewrite R in E.
+      unfold rev_check, final_result in E.
+      rewrite loop_is_fr, fr_revFound, index_from_revp in E.
+      assert (X : existsb is_revoked rs = true) by (apply existsb_exists; exists RRevoked; auto).
+      rewrite X in E.
+      match type of E with match (if ?c then _ else _) with _ => _ end = _ => destruct c; discriminate end.
     + pose proof (now_loop_spec (i_now i) (i_chain i) 0%N) as NL. rewrite E in NL.
       destruct NL as [_ (j & _ & [[? _]|[? _]])]; discriminate.
   - intros ->. unfold why_ok in V. rewrite S, R in V. now rewrite andb_false_r in V.
